@@ -63,6 +63,7 @@ var configs = []config{
 	{[]string{"CONNECT"}, map[string]string{"{env.VERIF_C16_UNSET_USER}": "", "u": "p"}, [4]bool{false, true, false, false}, [][2]string{{"u", "p"}}},
 	{[]string{"BIND"}, nil, [4]bool{false, false, true, false}, nil},
 	{[]string{"associate"}, nil, [4]bool{false, false, false, true}, nil},
+	{[]string{"BIND"}, map[string]string{"u": "q"}, [4]bool{false, false, true, false}, [][2]string{{"u", "q"}}}, // cfg 2 after a password rotation
 }
 
 func bytesEq(d []byte, off, n int, s string) bool {
@@ -115,7 +116,8 @@ func VH_socks5() {
 // one keeps serving exactly what it was configured for.
 func VH_socks5_pair() {
 	sink = 0
-	pairs := [][2]int{{1, 8}, {0, 7}, {7, 1}, {8, 0}}
+	// {first, second, which one serves}: the last pair is a reload that rotates a password
+	pairs := [][3]int{{1, 8, 0}, {0, 7, 0}, {7, 1, 0}, {8, 0, 0}, {2, 9, 1}, {9, 2, 1}}
 	pi := vapi.Param("PAIR", -1)
 	if pi < 0 {
 		pi = vapi.Choice("pair", len(pairs))
@@ -126,6 +128,10 @@ func VH_socks5_pair() {
 	hb := &l4socks.Socks5Handler{Commands: b.commands, Credentials: b.creds}
 	vapi.Assert(hb.Provision(caddy.Context{}) == nil, "provision")
 	vapi.Cover("second handler provisioned")
+	if pairs[pi][2] == 1 {
+		serve(hb, b, pairs[pi][1])
+		return
+	}
 	serve(ha, a, pairs[pi][0])
 }
 
